@@ -77,6 +77,16 @@ def base_config(spec):
         }
         if spec.get("want_authn_requests_signed"):
             svc["want_authn_requests_signed"] = True
+        if spec.get("enc_in_config"):
+            svc["encrypt_assertion"] = True          # encryption switched on by configuration, not per call
+        if spec.get("enc_hook_allow") is not None:
+            # the operator's policy hook for request-supplied encryption certificates: only these pass
+            allowed = set(_cert_body(k) for k in spec["enc_hook_allow"])
+
+            def _hook(cert, allowed=allowed):
+                body = "".join(l.strip() for l in str(cert).splitlines() if l.strip() and not l.startswith("-----"))
+                return body in allowed
+            svc["verify_encrypt_cert_assertion"] = _hook
         cnf = {
             "entityid": idp_entity(spec["name"]),
             "name": spec["name"],
@@ -130,6 +140,16 @@ def base_config(spec):
     if spec.get("allow_unknown_attributes"):
         cnf["allow_unknown_attributes"] = True
     return cnf
+
+
+def _cert_body(k):
+    from simcore.world import cert_b64
+    return cert_b64(k)
+
+
+def cert_pem(k):
+    with open(cert_file(k)) as f:
+        return f.read()
 
 
 _MD_CACHE = {}
